@@ -318,7 +318,9 @@ func (s *Solver) Check(as []*Term) Result {
 // once with three times the limit before it is reported.
 func (s *Solver) checkNoCache(lits []*Term) Result {
 	r := s.checkOnce(lits)
-	if r != Unknown || s.timeoutMs <= 0 || s.Name == "cvc5" || s.lastKilled || s.lastErr {
+	if r != Unknown || s.timeoutMs <= 0 || s.Name == "cvc5" || s.lastKilled || s.lastErr || s.Retries >= 4 {
+		// (at most four second attempts per solver process: a run with many hard queries is
+		// inconclusive anyway and should say so soon)
 		return r
 	}
 	s.Retries++
